@@ -20,7 +20,10 @@ void bad(const std::string &sig, const std::string &msg) { violation(sig, msg); 
 // ------------------------------------------------------------------ trees
 struct Node { bool dir; size_t size; std::vector<Node> kids; };
 typedef std::vector<Node> Forest;
-const char *NAMES[] = {"a", "b c", ".h", "\xc3\xa9"};
+// sibling names rotate through this list, starting at g_name_offset (every forest is built once per offset, so every name occurs at every position)
+const char *NAMES[] = {"a", "b c", ".h", "\xc3\xa9", "..a", "..."};
+const int NNAMES = 6;
+int g_name_offset = 0;
 const size_t SIZES[] = {0, 1, 4097};
 
 std::string enc(const Forest &f) {
@@ -55,7 +58,7 @@ void gen(int n, int d, std::vector<Forest> &out) {
 
 void materialize(const Forest &f, const std::string &dir, int depth) {
     for (size_t i = 0; i < f.size(); i++) {
-        std::string p = dir + "/" + NAMES[(i + depth) % 4];
+        std::string p = dir + "/" + NAMES[(i + depth + g_name_offset) % NNAMES];
         if (f[i].dir) { fs::create_directory(p); materialize(f[i].kids, p, depth + 1); }
         else { std::ofstream o(p, std::ios::binary); std::string data(f[i].size, 'x'); o.write(data.data(), (std::streamsize)data.size()); }
     }
@@ -124,7 +127,7 @@ void check_visitor(const std::string &dir_abs, const std::string &dir_rel, const
 
 void walk(const Forest &f, const std::string &abs, const std::string &rel, int depth, const std::string &root_abs) {
     for (size_t i = 0; i < f.size(); i++) {
-        std::string name = NAMES[(i + depth) % 4];
+        std::string name = NAMES[(i + depth + g_name_offset) % NNAMES];
         std::string a = abs + "/" + name, r = rel.empty() ? name : rel + "/" + name;
         for (const std::string &s : {a, r, a + "/", r + "/", "./" + r}) check_path(s);
         if (f[i].dir) { check_visitor(a, r, root_abs); walk(f[i].kids, a, r, depth + 1, root_abs); }
@@ -246,8 +249,13 @@ void explore() {
             std::string dir = scratch + fmt("/t%d-%d", n, part); fs::create_directories(dir);
             for (size_t i = part; i < all.size(); i += parts) {
                 if (deadline_passed()) { shm->exhaustive = 0; return; }
-                mark("tree " + enc(all[i])); run_tree(all[i], dir);
-                shm->evaluations++; shm->states++; shm->nontrivial += !all[i].empty();
+                for (int off : thorough() ? std::vector<int>{0, 1, 2, 3, 4, 5} : std::vector<int>{0, 2, 4}) {
+                    if (all[i].empty() && off) continue;
+                    g_name_offset = off;
+                    mark(fmt("tree@%d ", off) + enc(all[i])); run_tree(all[i], dir);
+                    shm->evaluations++; shm->states++; shm->nontrivial += !all[i].empty();
+                }
+                g_name_offset = 0;
                 if (i % 997 == 5 && shm->nsamples < 2) sample("tree " + enc(all[i]));
             }
         });
@@ -256,7 +264,7 @@ void explore() {
     fs::current_path("/");
     fs::remove_all(scratch);
     shm->validated = shm->transitions;
-    sx::detail(fmt("every directory forest with at most %d entries, depth <= 3, at most 4 siblings, each entry a directory or a regular file of 0/1/4097 bytes, sibling names rotating through {a, 'b c', .h, e-acute}; for every node and for missing siblings, "
+    sx::detail(fmt("every directory forest with at most %d entries, depth <= 3, at most 4 siblings, each entry a directory or a regular file of 0/1/4097 bytes, sibling names rotating through {a, 'b c', .h, e-acute, ..a, ...} from every second (thorough: every) starting offset; for every node and for missing siblings, "
                    "by absolute path, relative path, './' prefix and trailing separator: exists/isFile/isDirectory/size/listChildren against std::filesystem; DirectoryVisitor for every directory (absolute, relative, nested, missing, unused, explicit restore); "
                    "working directories whose absolute path has a chosen total length (64..4085 bytes across the 255/256, 1024, 2048 boundaries and up to PATH_MAX; thorough: every length 60..4085): getWorkingDirectory, relative queries, DirectoryVisitor enter/restore/nesting; "
                    "string identities for every path of <= 3 segments over {a, b.c, ., .., 'x y', e-acute} with optional leading separator, 0-2 trailing separators and doubled inner separators", maxn));
@@ -265,7 +273,8 @@ void explore() {
 void replay(const std::string &hist) {
     std::string scratch = fmt("/dev/shm/tulz-verif-path-replay-%d", (int)getpid());
     fs::remove_all(scratch); fs::create_directories(scratch);
-    if (hist.compare(0, 5, "tree ") == 0) { Forest f; size_t i = 0; std::string body = hist.substr(5); if (!dec(body, i, f)) violation("replay:parse", "cannot parse " + hist); else run_tree(f, scratch); }
+    if (hist.compare(0, 5, "tree@") == 0) { size_t sp = hist.find(' '); g_name_offset = atoi(hist.c_str() + 5); Forest f; size_t i = 0; std::string body = hist.substr(sp + 1); if (!dec(body, i, f)) violation("replay:parse", "cannot parse " + hist); else run_tree(f, scratch); g_name_offset = 0; }
+    else if (hist.compare(0, 5, "tree ") == 0) { Forest f; size_t i = 0; std::string body = hist.substr(5); if (!dec(body, i, f)) violation("replay:parse", "cannot parse " + hist); else run_tree(f, scratch); }
     else if (hist.compare(0, 8, "deepcwd ") == 0) deep_cwd((size_t)atol(hist.c_str() + 8), scratch);
     else string_part();
     fs::current_path("/"); fs::remove_all(scratch);
